@@ -56,7 +56,8 @@ var c04Narrow = []c04Req{
 
 var c04NarrowVarys = []string{"", "X-A", "X-B", "X-A, X-B", "*"}
 
-var c04Varys = []string{"", "X-A", "X-A, X-B", "X-B, X-A", "x-a", "Accept-Encoding", "*", "X-A, Accept-Encoding"}
+// "\n" separates field lines: the origin sends several Vary header fields
+var c04Varys = []string{"", "X-A", "X-A, X-B", "X-B, X-A", "x-a", "Accept-Encoding", "*", "X-A, Accept-Encoding", "X-B, *", "*, X-A", "X-A\nX-B"}
 
 // varyClass is the oracle's equivalence class of a request's value for field f.
 func varyClass(h http.Header, f string) string {
@@ -85,7 +86,7 @@ func varyClass(h http.Header, f string) string {
 }
 
 func runC04(x *mc.X) {
-	plan := mc.Pick(x, "plan", []string{"wide", "narrow-deep", "different-meaning-pairs"})
+	plan := mc.Pick(x, "plan", []string{"wide", "narrow-deep", "different-meaning-pairs", "vary-forms"})
 	if plan == "different-meaning-pairs" {
 		runC04Pairs(x)
 		return
@@ -94,6 +95,9 @@ func runC04(x *mc.X) {
 	reqs, varys := append(append([]c04Req{}, c04Reqs...), c04NoCache...), c04Varys
 	if x.Tier() != "thorough" {
 		varys = []string{"", "X-A", "X-A, X-B", "Accept-Encoding", "*"}
+	}
+	if plan == "vary-forms" { // unusual spellings of the Vary field itself, over the narrow request alphabet
+		depth, reqs, varys = 3, c04Narrow, []string{"", "X-A", "X-B, *", "*, X-A", "X-A\nX-B", "x-a , x-b"}
 	}
 	if plan == "narrow-deep" {
 		depth, reqs, varys = 4, c04Narrow, c04NarrowVarys
@@ -112,7 +116,9 @@ func runC04(x *mc.X) {
 			x.Skip() // thorough: the fourth step of the wide plan uses reduced menus
 		}
 		h := H("Cache-Control", "max-age=100000")
-		h = hdrIf(h, "Vary", vary)
+		for _, line := range strings.Split(vary, "\n") {
+			h = hdrIf(h, "Vary", line)
+		}
 		answer(w, RS{Status: 200, H: h})
 		req := world.Req("GET", U)
 		for _, kv := range reqs[ri].hdr {
@@ -139,8 +145,12 @@ func runC04(x *mc.X) {
 		x.Nontrivial(fmt.Sprintf("reuse/vary=%s/req=%s", storedVary, reqs[ri].name))
 		x.Note("served from store")
 		x.Sample(map[string]any{"history": hist, "served_token_minted_for": tk.ReqHdr, "stored_vary": storedVary, "request": reqs[ri].hdr})
-		if strings.TrimSpace(storedVary) == "*" {
-			x.Failf("Vary: * response served without validation", "token %s (Vary: *) returned for %s", o.Tok, reqs[ri].name)
+		star := false
+		for _, f := range strings.Split(storedVary, ",") {
+			star = star || strings.TrimSpace(f) == "*"
+		}
+		if star {
+			x.Failf("Vary: * response served without validation"+ifs(strings.TrimSpace(storedVary) != "*", " (list containing *)"), "token %s (Vary: %s) returned for %s", o.Tok, storedVary, reqs[ri].name)
 			return
 		}
 		for _, f := range strings.Split(storedVary, ",") {
